@@ -24,7 +24,9 @@ def alphabet(nx=4, safe=False, unkey=None, variant='plain'):
     xs = stubs.XS[:nx]
 
     def add(args, kw, recv, cls, kind='ok'):
-        if variant == 'frac':
+        if variant == 'long':
+            val = stubs._lvalue(recv[0])
+        elif variant == 'frac':
             val = ('frac', recv[0])
         elif variant == 'plain':
             val = stubs._value(*recv)
@@ -39,6 +41,15 @@ def alphabet(nx=4, safe=False, unkey=None, variant='plain'):
         add((1, 0), {}, (1, 0), (1, 0))
         add((), {'x': 2}, (2, 0), (2, 0))
         add((), {'y': 0, 'x': 1}, (1, 0), (1, 0))
+        add((7,), {}, (7, 0), (7, 0), 'raise')
+        add((8,), {}, (8, 0), (8, 0), 'raise')
+    elif variant == 'long':       # long strings that agree on their first 270 characters
+        L = stubs.LONGP
+        for x in xs:
+            add((L + str(x),), {}, (L + str(x), 0), (x, 0))
+        add((L + '1', 0), {}, (L + '1', 0), (1, 0))
+        add((), {'x': L + '2'}, (L + '2', 0), (2, 0))
+        add((), {'y': 0, 'x': L + '1'}, (L + '1', 0), (1, 0))
         add((7,), {}, (7, 0), (7, 0), 'raise')
         add((8,), {}, (8, 0), (8, 0), 'raise')
     elif variant in ('ignore_y', 'ignore_1'):
@@ -165,7 +176,7 @@ class Recorder(object):
                 unkey = stubs.BadRepr()      # cannot be encoded by str/repr/pickle/named hash (TypeError)
         self.variant = cfg.get('variant', 'plain')
         self.args = alphabet(cfg.get('nx', 4), self.safe, unkey, self.variant)
-        self.funcs = {'plain': stubs.FUNCS, 'frac': stubs.QFUNCS, 'ignore_y': stubs.GFUNCS, 'ignore_1': stubs.GFUNCS, 'tol0': stubs.HFUNCS,
+        self.funcs = {'plain': stubs.FUNCS, 'long': stubs.LFUNCS, 'frac': stubs.QFUNCS, 'ignore_y': stubs.GFUNCS, 'ignore_1': stubs.GFUNCS, 'tol0': stubs.HFUNCS,
                       'tol1': stubs.TFUNCS}[self.variant]
         self.ni = cfg.get('ni', 1)
         self.na = cfg.get('na', 2)
